@@ -1017,6 +1017,7 @@ class SSHConnection(SSHPacketHandler, asyncio.Protocol):
         self._next_recv_chan = 0
 
         self._global_request_queue: List[_GlobalRequest] = []
+        self._servicing_global_requests = False
         self._global_request_waiters: \
             'List[asyncio.Future[_GlobalRequestResult]]' = []
 
@@ -2217,11 +2218,30 @@ class SSHConnection(SSHPacketHandler, asyncio.Protocol):
     def _service_next_global_request(self) -> None:
         """Process next item on global request queue"""
 
-        handler, packet, _ = self._global_request_queue[0]
-        if callable(handler):
-            handler(packet)
-        else:
-            self._report_global_response(False)
+        if self._servicing_global_requests:
+            # The loop below will pick up the next request
+            return
+
+        self._servicing_global_requests = True
+
+        try:
+            # Loop here rather than recursing through
+            # _report_global_response, so a long queue of requests
+            # can't exhaust the stack
+            while self._global_request_queue:
+                pending = len(self._global_request_queue)
+
+                handler, packet, _ = self._global_request_queue[0]
+                if callable(handler):
+                    handler(packet)
+                else:
+                    self._report_global_response(False)
+
+                if len(self._global_request_queue) == pending:
+                    # The response will be reported later
+                    break
+        finally:
+            self._servicing_global_requests = False
 
     def _connection_made(self) -> None:
         """Handle the opening of a new connection"""
